@@ -3,6 +3,8 @@ package checks
 import (
 	"bytes"
 	"fmt"
+	"io"
+	"os"
 
 	"github.com/ipfs/go-cid"
 
@@ -18,10 +20,66 @@ type fileCase struct {
 	L       int    `json:"len"`
 	K       int    `json:"pattern_chunk"`
 	Pattern string `json:"pattern"`
+	// Source (this builder only): how the bytes are handed over. "" = a
+	// bytes.Reader at the start of the content; "positioned" = a bytes.Reader
+	// over a longer buffer, positioned at the content after a prefix that is
+	// not part of the file; "section" = an io.SectionReader positioned after
+	// an already consumed header; "buffer" = a bytes.Buffer (Len(), no Seek);
+	// "opaque" = a reader with no other method; "file" = an *os.File positioned
+	// after a consumed header
+	Source string `json:"source,omitempty"`
 }
 
 func (c fileCase) String() string {
+	if c.Source != "" {
+		return fmt.Sprintf("%s w=%d %s L=%d %s source=%s", c.Writer, c.W, c.Chunker, c.L, c.Pattern, c.Source)
+	}
 	return fmt.Sprintf("%s w=%d %s L=%d %s", c.Writer, c.W, c.Chunker, c.L, c.Pattern)
+}
+
+var fileSources = []string{"positioned", "section", "buffer", "opaque", "file"}
+
+type opaqueReader struct{ r io.Reader }
+
+func (o opaqueReader) Read(p []byte) (int, error) { return o.r.Read(p) }
+
+// source hands the content over the way c.Source says; cleanup is to be called
+// after the build.
+func (c fileCase) source(content []byte) (src io.Reader, cleanup func()) {
+	cleanup = func() {}
+	header := []byte("preceding record, already consumed: not part of the file")
+	switch c.Source {
+	case "positioned":
+		br := bytes.NewReader(append(append([]byte{}, header...), content...))
+		br.Seek(int64(len(header)), io.SeekStart)
+		return br, cleanup
+	case "section":
+		sr := io.NewSectionReader(bytes.NewReader(append(append([]byte("xx"), header...), content...)), 2, int64(len(header)+len(content)))
+		io.CopyN(io.Discard, sr, int64(len(header)))
+		return sr, cleanup
+	case "buffer":
+		return bytes.NewBuffer(append([]byte{}, content...)), cleanup
+	case "opaque":
+		return opaqueReader{bytes.NewReader(content)}, cleanup
+	case "file":
+		f, err := os.CreateTemp(scratchDir(), "verif-src-*")
+		if err != nil {
+			return bytes.NewReader(content), cleanup
+		}
+		f.Write(header)
+		f.Write(content)
+		f.Seek(int64(len(header)), io.SeekStart)
+		return f, func() { f.Close(); os.Remove(f.Name()) }
+	}
+	return bytes.NewReader(content), cleanup
+}
+
+// scratchDir: memory-backed when available.
+func scratchDir() string {
+	if st, err := os.Stat("/dev/shm"); err == nil && st.IsDir() {
+		return "/dev/shm"
+	}
+	return ""
 }
 
 func (c fileCase) content() []byte { return gen.Content(c.L, c.K, c.Pattern) }
@@ -43,8 +101,10 @@ func (c fileCase) build() (*store.Store, cid.Cid, uint64, error) {
 		var root cid.Cid
 		var sz uint64
 		var err error
+		src, cleanup := c.source(content)
+		defer cleanup()
 		gen.WithWidth(c.W, func() {
-			root, sz, err = gen.BuildOurs(s, bytes.NewReader(content), c.Chunker)
+			root, sz, err = gen.BuildOurs(s, src, c.Chunker)
 		})
 		return s, root, sz, err
 	}
